@@ -152,9 +152,6 @@ Do(a) ==
        [] a.op = "init_run" ->       \* the init phase of a (further) run on this state: counter and memories start empty
             /\ best' = NoInd /\ arch' = <<>> /\ shownK' = <<>> /\ evals' = 0 /\ res' = R("ok", 0)
             /\ UNCHANGED <<pop, calls, reg>>
-       [] a.op = "archive_into_population" ->
-            /\ pop' = Reinsert(pop, arch, 1) /\ res' = R("ok", 0)
-            /\ UNCHANGED <<best, arch, shownK, evals, calls, reg>>
 
 (* ElitistArchiveUpdate(K): afterwards the archive holds K best of archive + population; ties may   *)
 (* be broken either way (unstable sort), so the new archive is any sequence allowed by the relation *)
@@ -172,6 +169,27 @@ ArchiveUpdate(na) ==
     /\ shownK' = FirstK(SortSeq(shownK \o Ranks(pop)), K)
     /\ res' = R("ok", 0)
     /\ UNCHANGED <<pop, best, evals, calls, reg>>
+
+(* ElitistArchiveIntoPopulation: every archive member that is not in the population yet joins it, once; *)
+(* nobody already there is duplicated or lost.  WHERE the joining members are placed (the code appends   *)
+(* them) and in which order is not fixed by the statement: the new population is any sequence allowed by *)
+(* the relation (counted per individual).                                                                 *)
+CountIn(q, x) == Cardinality({j \in 1..Len(q) : q[j] = x})
+ReinsertAllowed(np) ==
+    LET members == {pop[j] : j \in 1..Len(pop)} \cup {arch[j] : j \in 1..Len(arch)} \cup {np[j] : j \in 1..Len(np)} IN
+    \A x \in members :
+        CountIn(np, x) = CountIn(pop, x) + (IF CountIn(pop, x) = 0 /\ CountIn(arch, x) > 0 THEN 1 ELSE 0)
+ReinsertInto(np) ==
+    /\ act' = A("archive_into_population", 0, 0)
+    /\ ReinsertAllowed(np)
+    /\ pop' = np /\ res' = R("ok", 0)
+    /\ UNCHANGED <<best, arch, shownK, evals, calls, reg>>
+\* candidates in model checking: the joining members behind or in front of the population
+RECURSIVE Missing(_, _, _)
+Missing(p, a, j) == IF j > Len(a) THEN <<>>
+                    ELSE IF (\E x \in 1..Len(p) : p[x] = a[j]) \/ (\E y \in 1..(j - 1) : a[y] = a[j]) THEN Missing(p, a, j + 1)
+                    ELSE <<a[j]>> \o Missing(p, a, j + 1)
+ReinsertCandidates == {Reinsert(pop, arch, 1), Missing(pop, arch, 1) \o pop}
 
 (* A user-written operator driven through the helper combinators `mutation()` / `selection()` / `replacement()`       *)
 (* (default bodies of Component::execute for the operator traits), possibly failing midway.  The operator writes    *)
@@ -230,7 +248,6 @@ Acts ==
         ELSE {})
   \cup (IF AllEvaluated THEN {A("update_best", 0, 0)} ELSE {})
   \cup {A("init_run", 0, 0)}
-  \cup (IF Len(pop) + Len(arch) <= MaxPop + 1 THEN {A("archive_into_population", 0, 0)} ELSE {})
 
 \* candidates for the new archive in model checking: sequences over archive + population members
 RECURSIVE SeqsOver(_, _)
@@ -247,6 +264,7 @@ UserMutActs == {A(op, i, s) : op \in UserMutOps, i \in 0..Len(pop), s \in Sols}
 UserSelActs == IF Len(pop) + 2 <= MaxPop + 1 THEN {A("user_select_replace", i, s) : i \in Idx, s \in 0..2} ELSE {}
 MNext == \/ \E a \in Acts : Do(a)
          \/ (AllEvaluated /\ \E na \in ArchCandidates : ArchiveUpdate(na))
+         \/ (Len(pop) + Len(arch) <= MaxPop + 1 /\ \E np \in ReinsertCandidates : ReinsertInto(np))
          \/ \E a \in UserMutActs : \E np \in UserMutCandidates(a) : UserMutation(a, np)
          \/ \E a \in UserSelActs : \E np \in UserSelCandidates(a) : UserSelectReplace(a, np)
 MSpec == MInit /\ [][MNext]_mvars
@@ -323,11 +341,10 @@ ArchiveHoldsKBest == Ranks(arch) = shownK /\ Len(arch) <= K
 \* C07: re-inserting the archive never duplicates an individual that is already there
 NoDuplicateOnReinsert ==
   [][ act'.op = "archive_into_population" =>
-        /\ SubSeq(pop', 1, Len(pop)) = pop
-        /\ \A j \in (Len(pop) + 1)..Len(pop') :
-              /\ \E x \in 1..Len(arch) : arch[x] = pop'[j]
-              /\ \A y \in 1..(j - 1) : pop'[y] # pop'[j]
-        /\ \A x \in 1..Len(arch) : \E j \in 1..Len(pop') : pop'[j] = arch[x] ]_mvars
+        /\ \A j \in 1..Len(pop) : CountIn(pop', pop[j]) = CountIn(pop, pop[j])      \* nobody there is duplicated or lost
+        /\ \A x \in 1..Len(arch) : CountIn(pop', arch[x]) >= 1                       \* every archive member is there
+        /\ \A j \in 1..Len(pop') : CountIn(pop, pop'[j]) = 0 =>                      \* who joined is an archive member, once
+              CountIn(arch, pop'[j]) >= 1 /\ CountIn(pop', pop'[j]) = 1 ]_mvars
 
 MTypeOK == Len(pop) <= MaxPop + K + 1
 =============================================================================
